@@ -34,7 +34,7 @@ func (c *Ctx) scanOf(dir, rel string) *scandfa.Analysis {
 	return a
 }
 
-func (c *Ctx) scan(dir string) *scandfa.Analysis { return c.scanOf(dir, "internal/scanner") }
+func (c *Ctx) scan(dir string) *scandfa.Analysis { return c.scanOf(dir, envOr("VERIF_SCANREL", "internal/scanner")) }
 
 type scanRule func(a *scandfa.Analysis) []*report.RuleResult
 
@@ -72,6 +72,11 @@ var scanRules = map[string]scanRule{
 	"eof-final":        func(a *scandfa.Analysis) []*report.RuleResult { return []*report.RuleResult{a.EofFinal()} },
 	"num-classify":     func(a *scandfa.Analysis) []*report.RuleResult { return []*report.RuleResult{a.NumClassify()} },
 	"pred-spec":        func(a *scandfa.Analysis) []*report.RuleResult { return []*report.RuleResult{a.PredSpec()} },
+	"lexeme-of": func(a *scandfa.Analysis) []*report.RuleResult {
+		l, k := a.LexemeOf(false)
+		return []*report.RuleResult{l, k}
+	},
+	"comment-kind":     func(a *scandfa.Analysis) []*report.RuleResult { return []*report.RuleResult{a.CommentKind()} },
 	"progress":         func(a *scandfa.Analysis) []*report.RuleResult { return []*report.RuleResult{a.Progress()} },
 }
 
@@ -92,6 +97,15 @@ func (c *Ctx) scanRun(groups ...string) {
 						r.Merge(scandfa.HeredocSpecMethods(p, "internal/hdbad"), "bad:")
 						return r
 					})
+					continue
+				}
+				if g == "lexeme-of" {
+					// the miniature scanner has its own lexemes; it has no heredoc opener, so heredoc-kind (decided by the same
+					// product) has no fixture: its positive examples are the recorded seeds C08-8 and C08-10
+					good, _ := ok.LexemeOf(true)
+					broken, _ := bad.LexemeOf(true)
+					good.Merge(broken, "bad:")
+					c.compareFixture("mini", good.Rule, dir, good)
 					continue
 				}
 				good, broken := scanRules[g](ok), scanRules[g](bad)
@@ -169,7 +183,7 @@ func init() {
 	delete(notApplicable, "C04")
 	properties["C04"] = &Property{
 		Level:     "other",
-		LevelText: "The compiled scanner is rebuilt as a transition system (531 states x 256 bytes with three-valued evaluation of the condition predicates; every action block interpreted symbolically over the cursor variables p, ts, te; a dataflow over the block graph bounds p-ts and te-ts) and the structural clauses of the property are decided on it for every state and every action: (pos-pairing) every returned token has its position recorded from the same [ts,te) its text is taken from; (ff-span) every free-floating token takes value and position from the same bytes; (resume-at-te) scanning always resumes exactly where the previous token or free-floating token ended, so tokens neither overlap nor leave gaps; (no-drop) every consumed byte range is returned, recorded as free-floating, or reported as an error; (newline-action) every transition that consumes LF or CR runs the action that records the line start; (scanner-helpers) setTokenPosition / addFreeFloatingToken / NewLexer / the tail of Lex compute offsets, lines and values from exactly those variables; (pred-pure) transition conditions do not move the cursor; leaf nodes carry their own token's text (leaf-value) and pool objects are never handed out twice (pool-typestate). Not decided: the arithmetic of NewLines.GetLine (that the recorded line starts yield the true 1-based line for every terminator mix), and classification of comments vs doc-comments beyond the constant passed.",
+		LevelText: "The compiled scanner is rebuilt as a transition system (531 states x 256 bytes with three-valued evaluation of the condition predicates; every action block interpreted symbolically over the cursor variables p, ts, te; a dataflow over the block graph bounds p-ts and te-ts) and the structural clauses of the property are decided on it for every state and every action: (pos-pairing) every returned token has its position recorded from the same [ts,te) its text is taken from; (ff-span) every free-floating token takes value and position from the same bytes; (resume-at-te) scanning always resumes exactly where the previous token or free-floating token ended, so tokens neither overlap nor leave gaps; (no-drop) every consumed byte range is returned, recorded as free-floating, or reported as an error; (newline-action) every transition that consumes LF or CR runs the action that records the line start; (scanner-helpers) setTokenPosition / addFreeFloatingToken / NewLexer / the tail of Lex compute offsets, lines and values from exactly those variables; (pred-pure) transition conditions do not move the cursor; leaf nodes carry their own token's text (leaf-value) and pool objects are never handed out twice (pool-typestate). Not decided: the arithmetic of NewLines.GetLine (that the recorded line starts yield the true 1-based line for every terminator mix).",
 		LevelNote: "pred-pure is violated by the flexible-heredoc end test (known finding).",
 		Technique: "static analysis: transition-system reconstruction of the generated scanner, symbolic interpretation of action blocks, interval dataflow on cursor offsets; SSA provenance checks of the helper functions; abstract interpretation of grammar actions (leaf values); zone-domain typestate of the pools",
 		Engine:    "scandfa",
